@@ -38,9 +38,11 @@ type step struct {
 	Conn  int    `json:"conn"`
 	Mode  int    `json:"mode"`
 	Short bool   `json:"short"`
+	B     int    `json:"b"`
 }
 type hcase struct {
 	Steps []step `json:"steps"`
+	Reenc bool   `json:"reenc"` // run on the route that adds headers both ways: the proxy re-encodes requests and responses
 }
 
 const (
@@ -94,6 +96,8 @@ type env struct {
 	tr     *vh.Trace
 	up     *xc02.Up
 	sched  *gate.Sched
+	g      *xc02.Gates
+	svc    string // routing header value of the connections dialled from now on
 	laddr  string
 	emit   xc02.Emit
 	fresh  uint32
@@ -150,6 +154,7 @@ func (e *env) dial() *xc02.Client {
 	e.nconn++
 	cl, err := xc02.Dial(e.laddr, fmt.Sprintf("k%d", e.nconn), e.emit)
 	vh.Must(err, "dial proxy")
+	cl.Service = e.svc
 	return cl
 }
 
@@ -202,6 +207,11 @@ func (e *env) runHop(name string, c hcase) map[string]interface{} {
 	e.up.Forget()
 	e.tr.Emit(vh.Ev{"ev": "run", "name": name, "mode": "hop", "case": c})
 	e.lost0 = atomic.LoadInt64(&lost)
+	e.svc = "c02"
+	if c.Reenc {
+		e.svc = "c02x"
+	}
+	defer func() { e.svc = "c02" }()
 	conns := map[int]*xc02.Client{}
 	defer func() {
 		for _, cl := range conns {
@@ -216,7 +226,7 @@ func (e *env) runHop(name string, c hcase) map[string]interface{} {
 	}
 	reqs := map[int]*rq{}
 	extra := []*rq{} // filler requests of the race steps
-	collisions, diverged, races := 0, 0, 0
+	collisions, diverged, races, inters := 0, 0, 0, 0
 	for _, s := range c.Steps {
 		switch s.Op {
 		case "send":
@@ -263,6 +273,35 @@ func (e *env) runHop(name string, c hcase) map[string]interface{} {
 			if e.up.Reply(uc, max+7, name+"-ghost", "ghost") {
 				e.awaitTable(mark, max+7)
 			}
+		case "inter":
+			// decode A / read B / encode A: the answer to a is decoded and handed to a's worker, which is held when it wakes
+			// (gate ds.woken, next arrival only) before it encodes the reply for the downstream; the upstream then answers b on
+			// the same connection and b's reply is delivered; then a's worker resumes
+			a, b := reqs[s.R], reqs[s.B]
+			if a == nil || b == nil || a.arr == nil || b.arr == nil || a.epoch != e.epoch || b.epoch != e.epoch || a.poll() || b.poll() {
+				diverged++
+				continue
+			}
+			e.g.HoldOnce("ds.woken")
+			if !e.up.Reply(a.arr.Conn, a.arr.UID, a.tok, "ans") || !e.g.AwaitArrive("ds.woken", e.w(0)) {
+				e.g.Release("ds.woken")
+				a.wait(e.w(0))
+				diverged++
+				continue
+			}
+			mark := e.sched.Mark()
+			if e.up.Reply(b.arr.Conn, b.arr.UID, b.tok, "ans") {
+				e.awaitTable(mark, b.arr.UID)
+				b.wait(e.w(0))
+			}
+			held := !a.poll() // false: some other worker was parked, a went through on its own
+			e.g.Release("ds.woken")
+			a.wait(e.w(0))
+			if held {
+				inters++
+			} else {
+				diverged++
+			}
 		case "race":
 			// the upstream's answer to r is looked up by the proxy and its handler is held (gate us.recv.guard) until r's
 			// timeout has ended the request; meanwhile new requests start; then the handler resumes
@@ -271,9 +310,9 @@ func (e *env) runHop(name string, c hcase) map[string]interface{} {
 				diverged++
 				continue
 			}
-			e.sched.Hold("us.recv.guard")
-			if !e.up.Reply(q.arr.Conn, q.arr.UID, q.tok, "ans") || !e.sched.AwaitArrive("us.recv.guard", e.w(0)) {
-				e.sched.Release("us.recv.guard")
+			e.g.Hold("us.recv.guard")
+			if !e.up.Reply(q.arr.Conn, q.arr.UID, q.tok, "ans") || !e.g.AwaitArrive("us.recv.guard", e.w(0)) {
+				e.g.Release("us.recv.guard")
 				diverged++
 				continue
 			}
@@ -286,7 +325,7 @@ func (e *env) runHop(name string, c hcase) map[string]interface{} {
 				f.arr = e.up.WaitArrival(f.tok, e.w(0), f.poll)
 				fill = append(fill, f)
 			}
-			e.sched.Release("us.recv.guard")
+			e.g.Release("us.recv.guard")
 			extra = append(extra, fill...)
 			for _, f := range fill {
 				if f.arr != nil && !f.poll() {
@@ -305,9 +344,9 @@ func (e *env) runHop(name string, c hcase) map[string]interface{} {
 				diverged++
 				continue
 			}
-			e.sched.Hold("us.recv.guard")
-			if !e.up.Reply(q.arr.Conn, q.arr.UID, q.tok, "ans") || !e.sched.AwaitArrive("us.recv.guard", e.w(0)) {
-				e.sched.Release("us.recv.guard")
+			e.g.Hold("us.recv.guard")
+			if !e.up.Reply(q.arr.Conn, q.arr.UID, q.tok, "ans") || !e.g.AwaitArrive("us.recv.guard", e.w(0)) {
+				e.g.Release("us.recv.guard")
 				diverged++
 				continue
 			}
@@ -347,7 +386,7 @@ func (e *env) runHop(name string, c hcase) map[string]interface{} {
 				f.arr = e.up.WaitArrival(f.tok, e.w(0), f.poll)
 				fill = append(fill, f)
 			}
-			e.sched.Release("us.recv.guard")
+			e.g.Release("us.recv.guard")
 			extra = append(extra, fill...)
 			for _, f := range fill {
 				if f.arr != nil && !f.poll() {
@@ -406,7 +445,7 @@ func (e *env) runHop(name string, c hcase) map[string]interface{} {
 	patient := e.settle(pending)
 	time.Sleep(15 * time.Millisecond) // frames that must not come
 	e.tr.Emit(vh.Ev{"ev": "quiesce", "patient": patient})
-	return map[string]interface{}{"name": name, "collisions": collisions, "diverged": diverged, "races": races, "lost": atomic.LoadInt64(&lost) - e.lost0}
+	return map[string]interface{}{"name": name, "collisions": collisions, "diverged": diverged, "races": races, "inters": inters, "reenc": c.Reenc, "svc": e.svc, "lost": atomic.LoadInt64(&lost) - e.lost0}
 }
 
 // runStorm: concurrent pipelined clients on shared downstream connections.
@@ -416,9 +455,16 @@ func (e *env) runStorm(name string, rng *rand.Rand, nconn, workersPerConn, burst
 	e.lost0 = atomic.LoadInt64(&lost)
 	e.tr.Emit(vh.Ev{"ev": "run", "name": name, "mode": "storm", "case": map[string]interface{}{"conns": nconn, "workers": workersPerConn, "bursts": bursts, "close": withClose}})
 	conns := []*xc02.Client{}
+	nre := 0
 	for i := 0; i < nconn; i++ {
+		e.svc = "c02"
+		if k := rng.Intn(4); k < 2 {
+			e.svc = []string{"c02x", "c02b"}[k]
+			nre += 1 - k
+		}
 		conns = append(conns, e.dial())
 	}
+	e.svc = "c02"
 	var freshMu sync.Mutex
 	fresh := func() uint32 { freshMu.Lock(); defer freshMu.Unlock(); return e.freshID() }
 	var total, errs, coll, maxMs int64
@@ -516,16 +562,33 @@ func (e *env) runStorm(name string, rng *rand.Rand, nconn, workersPerConn, burst
 	for _, cl := range conns {
 		cl.Close()
 	}
-	return map[string]interface{}{"name": name, "requests": total, "errors": errs, "collisions": coll, "closed": closed, "slowest_burst_ms": maxMs, "unanswered_before_settle": len(pending)}
+	return map[string]interface{}{"name": name, "requests": total, "errors": errs, "collisions": coll, "closed": closed, "reenc_conns": nre, "slowest_burst_ms": maxMs, "unanswered_before_settle": len(pending)}
 }
 
 func startMosn(tmp string, up *xc02.Up) string {
 	laddr := e2e.FreeAddr()
 	clusters := e2e.BuildClusters([]e2e.ClusterSpec{{Name: "up", Hosts: []string{up.Addr}}})
-	routes := []e2e.RouteSpec{{Prefix: "/", Cluster: "up", Extra: func(r *v2.Router) {
-		r.Match = v2.RouterMatch{Headers: []v2.HeaderMatcher{{Name: "service", Value: "c02"}}}
-	}}}
-	lst := e2e.BuildListener(e2e.ListenerSpec{Name: "c02", Addr: laddr, Downstream: "X", Upstream: "X", SubProto: "bolt", Routes: routes})
+	add := func(k string) []*v2.HeaderValueOption {
+		return []*v2.HeaderValueOption{{Header: &v2.HeaderValue{Key: k, Value: "mosn"}}}
+	}
+	routes := []e2e.RouteSpec{
+		// c02x: headers added in both directions, so neither the request nor the response is forwarded as the raw frame
+		{Prefix: "/", Cluster: "up", Extra: func(r *v2.Router) {
+			r.Match = v2.RouterMatch{Headers: []v2.HeaderMatcher{{Name: "service", Value: "c02x"}}}
+			r.Route.RequestHeadersToAdd = add("x-c02-req")
+			r.Route.ResponseHeadersToAdd = add("x-c02-resp")
+		}},
+		// c02b (storm only): plain route, but the stream filter c02body reads and rewrites the request and response bodies.
+		// (proxy SetRequestData/SetResponseData refill the same buffer object, so bolt still forwards the raw frame: this
+		// is a filter-touches-body flavour, not a second re-encode path)
+		{Prefix: "/", Cluster: "up", Extra: func(r *v2.Router) {
+			r.Match = v2.RouterMatch{Headers: []v2.HeaderMatcher{{Name: "service", Value: "c02b"}}}
+		}},
+		{Prefix: "/", Cluster: "up", Extra: func(r *v2.Router) {
+			r.Match = v2.RouterMatch{Headers: []v2.HeaderMatcher{{Name: "service", Value: "c02"}}}
+		}}}
+	lst := e2e.BuildListener(e2e.ListenerSpec{Name: "c02", Addr: laddr, Downstream: "X", Upstream: "X", SubProto: "bolt", Routes: routes,
+		StreamFilters: []v2.Filter{{Type: "c02body", Config: map[string]interface{}{}}}})
 	e2e.StartMosn(e2e.BuildConfig([]v2.Listener{lst}, clusters, e2e.ScratchLog(tmp)))
 	vh.Must(e2e.WaitListen(laddr, 10*time.Second), "mosn listener")
 	return laddr
@@ -564,7 +627,9 @@ func main() {
 	laddr := startMosn(tmp, up)
 	sched := gate.Install(nil)
 	defer sched.Uninstall()
-	e := &env{tr: tr, up: up, sched: sched, laddr: laddr, emit: emit, shard: *shard, patientLeft: 3}
+	g := xc02.InstallGates() // replaces the scheduler's gate callback; its event sink stays
+	defer g.ReleaseAll()
+	e := &env{tr: tr, up: up, sched: sched, g: g, svc: "c02", laddr: laddr, emit: emit, shard: *shard, patientLeft: 3}
 	// the first request makes the pool connect (it fails while the pool connects): warm up outside any run
 	tr.Emit(vh.Ev{"ev": "run", "name": fmt.Sprintf("warm%d", *shard), "mode": "warm"})
 	cl := e.dial()
@@ -606,6 +671,7 @@ func main() {
 			rs.Put(e.runStorm(fmt.Sprintf("s%d.%d", *shard, i), rng, 1+rng.Intn(3), 1+rng.Intn(3), 4+rng.Intn(6), rng.Intn(4) == 0 || *alwaysClose))
 		}
 	}
-	rs.Put(map[string]interface{}{"summary": true, "runs": n, "skipped": skipped, "lost": atomic.LoadInt64(&lost)})
+	rs.Put(map[string]interface{}{"summary": true, "runs": n, "skipped": skipped, "lost": atomic.LoadInt64(&lost),
+		"bodies_replaced_req": atomic.LoadInt64(&bodiesReplaced[0]), "bodies_replaced_resp": atomic.LoadInt64(&bodiesReplaced[1])})
 	fmt.Printf("c02 %s runs=%d skipped=%d lost-waits=%d events=%d\n", *mode, n, skipped, lost, tr.Len())
 }
